@@ -54,7 +54,7 @@ def main(argv):
     cases += suspects
     io, mo, plans = SR.tie_and_plans(cases)
     wd = legb.Workdir()
-    nv = 0
+    nv = nfail = 0
     try:
         jobs = []
         for ci, (c, i, m, pl) in enumerate(zip(cases, io, mo, plans)):
@@ -105,8 +105,9 @@ def main(argv):
                                f'observed "{(obs + ["<end>"])[k]}" where the property demands "{(exp + ["<end>"])[k]}"')
             if not problem and tp:
                 problem, failing = f'correspondence legA:Builder.build broken (compiled behaviour still as demanded): {tp}', False
-            if problem and nv < 5:
+            if problem and (nv < 5 or (failing and nfail < 3)):
                 nv += 1
+                nfail += 1 if failing else 0
                 rep.violation(problem, {'file': c['file'], 'configuration': c['cfg']}, failing_input=failing)
         rep.extra['compiled'] = len(results)
     finally:
